@@ -1,6 +1,6 @@
 (* C09 -- which class-level discriminator a class has / finds ("a class-level discriminator field is accepted").
 
-   CodeBuilder.get_discriminator is translated from /repo on every run (VerifGen.K43.get_discriminator; it
+   CodeBuilder.get_discriminator is translated from /repo on every run (VerifGen.K109a.get_discriminator; it
    calls the translated get_config of K4).  Here it is run on the class objects a hierarchy denotes -- every
    class of the MRO with the `Config` its body defines, each Config class with its own MRO (the Config it
    derives from, BaseConfig unless it is a plain class) and the `discriminator` its body writes -- and proved to
@@ -16,7 +16,7 @@
    hierarchy denotes. *)
 From Coq Require Import List String Ascii ZArith Bool Lia.
 From Verif Require Import Regex PyK PyK_alias PyK_clsdiscr KeyModel KeyImpl KeyProofs KeyCfg.
-From VerifGen Require Import K4 K43.
+From VerifGen Require Import K4 K109a.
 Import ListNotations.
 Open Scope string_scope.
 Open Scope list_scope.
